@@ -56,7 +56,7 @@ def expected_config():
 
 def build_model():
     ok, log, exe = C.build_mlref('py', 'Extract/ExtractPy.v', 'py_model', 'py_driver.ml', 'mlref_py',
-                                 ['Py/Pattern.vo', 'Py/Pretty.vo'])
+                                 ['Py/Pattern.vo', 'Py/Pretty.vo', 'Py/Serial.vo'])
     if not ok:
         raise RuntimeError('mlref_py build failed:\n' + log)
     return exe
@@ -447,6 +447,89 @@ def make_case(op, args, nots=None):
     raise ValueError(f'no oracle for {op}')
 
 
+def _targets_and_constraints(t, se, ss, cons):
+    k = t[0]
+    if k == 'v':
+        cons.append((set(t[2]), set(t[3])))
+    elif k in 'ia':
+        _targets_and_constraints(t[1], se, ss, cons)
+        _targets_and_constraints(t[2], se, ss, cons)
+    elif k in 'xm':
+        _targets_and_constraints(t[2], se, ss, cons)
+    elif k in 'ES':
+        (se if k == 'E' else ss).add(t[2])
+        _targets_and_constraints(t[1], se, ss, cons)
+        _targets_and_constraints(t[3], se, ss, cons)
+    elif k == 'I':
+        _targets_and_constraints(t[1], se, ss, cons)
+        for _, v in t[2]:
+            _targets_and_constraints(v, se, ss, cons)
+
+
+def corner_free_inputs(terms, evars=(), svars=()):
+    """Py/Bridge.v [corner_free se ss] for all inputs of an operation, with se/ss = every ESubst/SSubst target of
+    the inputs plus the operation's own variables: no metavariable declares one of them e_fresh / s_fresh"""
+    se, ss, cons = set(evars), set(svars), []
+    for t in terms:
+        _targets_and_constraints(t, se, ss, cons)
+    return all(not (ef & se) and not (sf & ss) for ef, sf in cons)
+
+
+def case_inputs(op, args, nots=None):
+    """(input terms, element variables substituted by the operation, set variables substituted by the operation)"""
+    r = PC.Reader(args)
+    if op in ('EQ', 'MP', 'MPS', 'MPX'):
+        return [r.term(), r.term()], (), ()
+    if op in ('FR', 'GEN', 'GENS', 'MV', 'SIMP', 'HNF', 'UI', 'UA', 'DE', 'DS', 'DY', 'DX', 'DM'):
+        return [r.term()], (), ()
+    if op in ('I', 'BI', 'BIS'):
+        p = r.term()
+        return [p] + [v for _, v in r.delta()], (), ()
+    if op in ('ES', 'SS'):
+        p = r.term()
+        x = r.int()
+        return [p, r.term()], ((x,) if op == 'ES' else ()), ((x,) if op == 'SS' else ())
+    if op in ('MS', 'MSI'):
+        p = r.term()
+        i = r.term()
+        return [p, i] + [v for _, v in r.delta()], (), ()
+    if op in ('ML', 'MLI'):
+        out = []
+        for _ in range(r.int()):
+            out += [r.term(), r.term()]
+        return out, (), ()
+    if op == 'RT':
+        _, d = _read_notation(r, nots)
+        return [d] + list(r.tuple()), (), ()
+    if op in ('NM', 'NA'):
+        _, d = _read_notation(r, nots)
+        return [d, r.term()], (), ()
+    raise ValueError(op)
+
+
+def bridge_cross_check(R, sides, cases, cfg, model_answers, nots=None):
+    """runtime cross-check of Py/Bridge.v: on corner-free inputs the model in the configuration of the current
+    code and the model in the sound configuration give the same answer line.  Returns the disagreements."""
+    if cfg == SOUND:
+        return []
+    idx = []
+    for j, c in enumerate(cases):
+        try:
+            terms, ev, sv = case_inputs(c.op, c.args, nots)
+        except (ValueError, KeyError, IndexError):
+            continue
+        if corner_free_inputs(terms, ev, sv):
+            idx.append(j)
+    R.hist['bridge:corner-free'] = R.hist.get('bridge:corner-free', 0) + len(idx)
+    R.hist['bridge:not-corner-free'] = R.hist.get('bridge:not-corner-free', 0) + len(cases) - len(idx)
+    sound = sides.model([cases[j].req for j in idx], SOUND)
+    bad = []
+    for j, a in zip(idx, sound):
+        if a != model_answers[j]:
+            bad.append(dict(op='BRIDGE:' + cases[j].op, args=cases[j].args, model=model_answers[j], impl='flags_sound model: ' + a))
+    return bad
+
+
 def check_cases(R, sides, cases, cfg, cid, sigfun=None, kindfun=None):
     """tie (model in configuration cfg vs implementation, literal answer lines) and property oracle on the
     implementation.  Returns (mismatches, failures); failures are classified by the defect flag that explains
@@ -456,6 +539,7 @@ def check_cases(R, sides, cases, cfg, cid, sigfun=None, kindfun=None):
     model = sides.model(reqs, cfg)
     drop = not cfg['f_mv_keep_subst']
     mismatches, failing = [], []
+    mismatches += bridge_cross_check(R, sides, cases, cfg, model, getattr(sides, 'notn_by_id', None))
     for c, m, i in zip(cases, model, impl):
         R.case((c.op, c.args), c.nontrivial, kindfun(c, i) if kindfun else f'{c.op}')
         if m != i:
